@@ -245,6 +245,16 @@ def _reg_becke():
                       BeckeWeights().compute_weights(v[0], v[1], v[2], select=2)])
     op("BeckeWeights.compute_atom_weight", "AAA", lambda: mk()[:3],
        lambda v, cb: [BeckeWeights().compute_atom_weight(v[0], v[1], v[2], 1)])
+    # the same entry points with elements that have no tabulated radius (He, Ar, Rn: the fall-back branch)
+    def mk2():
+        return [_pts(12, 4) * 1.5, np.array([[0.0, 0, 0], [0, 0, 1.7], [1.5, 0, 0.4]]), np.array([2, 18, 86]), np.array([0, 4, 9, 12])]
+    op("BeckeWeights.__call__[undefined radii]", "AAAA", mk2, lambda v, cb: [BeckeWeights(order=3)(v[0], v[1], v[2], v[3])])
+    op("BeckeWeights.generate_weights[undefined radii]", "AAALL", lambda: mk2()[:3] + [[0, 2], [0, 5, 12]],
+       lambda v, cb: [BeckeWeights().generate_weights(v[0], v[1], v[2], select=v[3], pt_ind=v[4])])
+    op("BeckeWeights.compute_weights[undefined radii]", "AAALL", lambda: mk2()[:3] + [[0, 1, 2], [0, 4, 9, 12]],
+       lambda v, cb: [BeckeWeights().compute_weights(v[0], v[1], v[2], select=v[3], pt_ind=v[4])])
+    op("BeckeWeights.compute_atom_weight[undefined radii]", "AAA", lambda: mk2()[:3],
+       lambda v, cb: [BeckeWeights().compute_atom_weight(v[0], v[1], v[2], 1)])
     op("HirshfeldWeights.__call__", "AAAA", mk, lambda v, cb: [HirshfeldWeights()(v[0], v[1], v[2], v[3])])
     op("HirshfeldWeights.generate_proatom", "AA", lambda: [_pts(7, 2), np.array([0.0, 0.1, 0.2])],
        lambda v, cb: [HirshfeldWeights.generate_proatom(v[0], v[1], 8)])
